@@ -592,7 +592,36 @@ func (s *clientSocket) onEvent(
 	decode parser.Decode,
 	sendAck ackSendFunc,
 ) (hasAckFunc bool) {
-	values, err := decode(handler.inputArgs...)
+	var (
+		values []reflect.Value
+		err    error
+	)
+
+	// With connection state recovery, the server appends the offset of the packet to the arguments of every event
+	// that doesn't carry an acknowledgement: one argument more than the handler takes. It is needed to recover
+	// the session (see `sendConnectPacket`), so ask the decoder for it. If that fails, the event has other arguments
+	// than this handler plus an offset, and the handler gets what it would have got without the offset.
+	_, expectOffset := s.pid()
+	if expectOffset && header.ID == nil {
+		types := make([]reflect.Type, 0, len(handler.inputArgs)+1)
+		types = append(types, handler.inputArgs...)
+		types = append(types, reflect.TypeOf(""))
+		values, err = decode(types...)
+		if err == nil && len(values) == len(types) {
+			offset := values[len(values)-1]
+			if offset.Kind() == reflect.Ptr && !offset.IsNil() {
+				offset = offset.Elem()
+			}
+			if offset.Kind() == reflect.String && offset.String() != "" {
+				s.setLastOffset(offset.String())
+			}
+			values = values[:len(values)-1]
+		} else {
+			values, err = decode(handler.inputArgs...)
+		}
+	} else {
+		values, err = decode(handler.inputArgs...)
+	}
 	if err != nil {
 		s.onError(wrapInternalError(err))
 		return
@@ -635,15 +664,6 @@ func (s *clientSocket) callEvent(
 	values []reflect.Value,
 	sendAck ackSendFunc,
 ) (hasAckFunc bool) {
-	// Set the lastOffset before calling the handler.
-	// An error can occur when the handler gets called,
-	// and we can miss setting the lastOffset.
-	_, ok := s.pid()
-	if ok && len(values) > 0 && values[len(values)-1].Kind() == reflect.String {
-		s.setLastOffset(values[len(values)-1].String())
-		values = values[:len(values)-1] // Remove offset
-	}
-
 	ack, _ := handler.ack()
 	if header.ID != nil && ack {
 		hasAckFunc = true
